@@ -184,6 +184,14 @@ class Machine:
                             if all(x is not None for x in vals):
                                 n_ = tv.get('n') or len(vals)
                                 ca[v['id']] = (vals + [0] * n_)[:max(n_, len(vals))]
+            # const tables at namespace scope (keyed by their qualified name)
+            for qn, g in self.prog.globals.items():
+                if not g.get('const'):
+                    continue
+                if 'vals' in g:
+                    ca[qn] = list(g['vals'])
+                elif isinstance(g.get('init'), dict) and strip(g['init']).get('k') == 'str':
+                    ca[qn] = list(strip(g['init'])['b']) + [0]
             self._const_arrays = ca
         return ca.get(vid)
 
@@ -208,6 +216,8 @@ class Machine:
                 return env.vars[t]
             if self.const_array(e.get('id')) is not None:
                 return ('ptr', e['id'], 0)
+            if e.get('q') and self.const_array(e.get('q')) is not None:
+                return ('ptr', e['q'], 0)
             if e.get('id') in env.locals:
                 return env.locals[e['id']]
             if 'cv' in e:
